@@ -5,6 +5,7 @@
 #include <hgraph/types/time_series/ts_output.h>
 #include <hgraph/types/value/value_builder.h>
 #include <hgraph/util/scope.h>
+#include <hgraph/util/verif_hook.h>
 
 #include <array>
 #include <condition_variable>
@@ -125,6 +126,7 @@ namespace hgraph
                     burst_value_binding = {};
                     consumer_thread = {};
                 }
+                verif::sync_point("pushq.stop.before_notify");
                 capacity_available.notify_all();
             }
 
@@ -187,6 +189,7 @@ namespace hgraph
                 values.pop_front();
                 result.more_pending = !values.empty();
                 lock.unlock();
+                verif::sync_point("pushq.pop.before_notify");
                 capacity_available.notify_one();
                 return result;
             }
@@ -394,8 +397,10 @@ namespace hgraph
                     return false;
                 }
 
+                verif::sync_point("pushq.try_send.before_admit");
                 const PushSourceSendResult result =
                     policy_.ops_->try_send_impl(policy_.context_, storage_, std::move(value));
+                verif::sync_point("pushq.try_send.after_admit");
                 if (result.accepted && result.wake_required)
                 {
                     push_engine_.mark_push_update_pending();
@@ -415,8 +420,10 @@ namespace hgraph
                     return false;
                 }
 
+                verif::sync_point("pushq.send_blocking.before_admit");
                 const PushSourceSendResult result =
                     policy_.ops_->send_blocking_impl(policy_.context_, storage_, std::move(value));
+                verif::sync_point("pushq.send_blocking.after_admit");
                 if (!result.accepted)
                 {
                     return false;
@@ -913,6 +920,7 @@ namespace hgraph
             void *storage = policy_storage(context, view.data());
             const bool more_pending = detail::PushSourcePolicyAccess::emit_next(
                 context.policy, storage, view.output(evaluation_time));
+            verif::sync_point("pushq.eval.after_emit");
             if (more_pending)
             {
                 view.graph().root().executor().push_queue_engine().mark_push_update_pending();
